@@ -53,7 +53,7 @@ func enumPaths(fn *ssa.Function, decide func(cond ssa.Value) int, isEvent func(s
 			}
 		}
 		if iff := world.IfOf(b); iff != nil {
-			switch decide(iff.Cond) {
+			switch decide(world.CondValue(iff)) {
 			case 0:
 				dfs(b.Succs[0], onPath, ev)
 			case 1:
